@@ -64,3 +64,10 @@ Print Assumptions C03_symbol_map_total_partial.
 Print Assumptions C03_unguarded_range_query_panics.
 Print Assumptions C03_self_parent_diverges.
 Print Assumptions C03_nonvacuous.
+
+(** every panic site of the `ide` crate found in the CURRENT sources (tools/translate/t_panicsites.py) has a
+    disposition in proofs/SymbolPanicSites.v (proved at op level / oracle / other property) *)
+From TG.Proofs Require Import SymbolPanicSites.
+Theorem C03_panic_sites_inventoried : all_sites_disposed = true.
+Proof. exact panic_sites_disposed. Qed.
+Print Assumptions C03_panic_sites_inventoried.
